@@ -4,6 +4,7 @@ import (
 	"fmt"
 	"go/token"
 	"go/types"
+	"strings"
 
 	"golang.org/x/tools/go/ssa"
 
@@ -33,6 +34,12 @@ func runC11(c *core.Ctx) {
 	}
 	c.Doc("C11.read-error", "every Message.Read error in process leads to closeWith(err) and loop exit", 2)
 	ruleReadErrorCloses(c, a)
+	// a connection lost in the middle of a message must reach process as an error: the
+	// reader of the message propagates every read error (rule shared with C08, bus/net only)
+	c.Doc("C08.error-flow", "Message.Read and Header.Read propagate every read error (a connection lost inside a message is not dispatched as a message) — rule shared with C08", 3)
+	ruleErrorFlow(c, newDecoderSet(c), "C08.error-flow", func(fn *ssa.Function) bool {
+		return strings.HasSuffix(fn.Pkg.Pkg.Path(), "/bus/net") || strings.HasSuffix(fn.Pkg.Pkg.Path(), core.WitnessDirName)
+	})
 	c.Doc("C11.shutdown", "closeWith closes the stream (before taking the handler mutex) and every registered handler with the error", 4)
 	ruleShutdown(c, a)
 	c.Doc("C11.handler-before-send", "reply handler registered before Send, removed if Send fails", 2)
@@ -831,6 +838,28 @@ func ruleSubscriptionsClose(c *core.Ctx, a *epAnchors) {
 					}
 				}
 				_ = ifi
+			}
+		}
+		// … and by nobody else: a cancel function that calls RemoveHandler(id) itself does not
+		// know whether the endpoint has dropped the handler already (the object terminated,
+		// the filter answered keep=false) and its slot been given to another registration
+		if subFn := c.Func("bus", "client", "Subscribe"); subFn != nil {
+			for _, f := range core.AnonFuncs(subFn) {
+				inGo := false
+				for _, g := range core.AnonFuncs(goFn) {
+					if g == f {
+						inGo = true
+					}
+				}
+				if inGo {
+					continue
+				}
+				for _, call := range core.Calls(f) {
+					cc := call.Common()
+					if cc.IsInvoke() && cc.Method.Name() == "RemoveHandler" && bad == "" {
+						bad = "RemoveHandler is called (at " + c.Pos(call.Pos()) + ") outside the forwarding goroutine, which alone knows whether the queue is still open: a cancel arriving after the endpoint dropped the handler removes whatever registration has taken the freed slot since (another subscriber's channel is closed)"
+					}
+				}
 			}
 		}
 		c.Check(bad == "", rule, "bus.client.Subscribe/remove-own-handler", goFn.Pos(), "the handler is only removed on the abort path, while the queue is still open", bad)
